@@ -16,9 +16,25 @@ Theorem refused_when_new_directories_escape c f r rest w cwd bl cwd1 np :
   chdir (w_fs w) (pf_dir f) = Some cwd1 ->
   generate (c_mode c) f r = inl np -> ppath_eqb np (pf_rel f) = false ->
   contained (c_var c) (w_fs w) f np = Some true ->
+  dest_parent_test (c_var c) (w_fs w) f np = Some true ->
   parents_contained (w_fs w) f np = Some false ->
   first_pass c ((f, r) :: rest) w cwd bl = (w, cwd1, bl, Some ExInvalidDest).
-Proof. intros H1 H2 H3 H4 H5. simpl. rewrite H1, H2, H3, H4, H5. reflexivity. Qed.
+Proof. intros H1 H2 H3 H4 H4' H5. simpl. rewrite H1, H2, H3, H4, H4', H5. reflexivity. Qed.
+
+(* a destination whose own directory (the generated path without its last component, resolved) lies
+   outside the input directory is refused the same way, even when the destination itself resolves
+   inside: its last component is then a symbolic link pointing inwards, which a rename would replace,
+   not follow (F34) *)
+Theorem refused_when_destination_directory_outside c f r rest w cwd bl cwd1 np :
+  chdir (w_fs w) (pf_dir f) = Some cwd1 ->
+  generate (c_mode c) f r = inl np -> ppath_eqb np (pf_rel f) = false ->
+  contained (c_var c) (w_fs w) f np = Some true ->
+  v_dest_parent_containment (c_var c) = true ->
+  dest_parent_contained (w_fs w) f np = Some false ->
+  first_pass c ((f, r) :: rest) w cwd bl = (w, cwd1, bl, Some ExInvalidDest).
+Proof.
+  intros H1 H2 H3 H4 Hv H5. simpl. unfold dest_parent_test. rewrite H1, H2, H3, H4, Hv, H5. reflexivity.
+Qed.
 
 (* a file that really lives outside its input directory (reached through a symbolic link to a directory
    that leaves it) is refused the same way, whatever its destination: nothing outside is removed *)
@@ -26,28 +42,32 @@ Theorem refused_when_source_outside c f r rest w cwd bl cwd1 np :
   chdir (w_fs w) (pf_dir f) = Some cwd1 ->
   generate (c_mode c) f r = inl np -> ppath_eqb np (pf_rel f) = false ->
   contained (c_var c) (w_fs w) f np = Some true ->
+  dest_parent_test (c_var c) (w_fs w) f np = Some true ->
   parents_contained (w_fs w) f np = Some true ->
   source_contained (w_fs w) f = Some false ->
   first_pass c ((f, r) :: rest) w cwd bl = (w, cwd1, bl, Some ExInvalidDest).
-Proof. intros H1 H2 H3 H4 H5 H6. simpl. rewrite H1, H2, H3, H4, H5, H6. reflexivity. Qed.
+Proof. intros H1 H2 H3 H4 H4' H5 H6. simpl. rewrite H1, H2, H3, H4, H4', H5, H6. reflexivity. Qed.
 
 Theorem invalid_dest_is_status_1 : status_of ExInvalidDest = 1%Z.
 Proof. reflexivity. Qed.
 
-(* the renamer is reached only after all three containment tests said yes; in every other case the run
+(* the renamer is reached only after all four containment tests said yes; in every other case the run
    ends (or the file is skipped) with the world as it was *)
 Theorem renamer_reached_only_inside c f r rest w cwd bl np cwd1 :
   chdir (w_fs w) (pf_dir f) = Some cwd1 ->
   generate (c_mode c) f r = inl np -> ppath_eqb np (pf_rel f) = false ->
-  (contained (c_var c) (w_fs w) f np = Some true /\ parents_contained (w_fs w) f np = Some true /\
-   source_contained (w_fs w) f = Some true) \/
+  (contained (c_var c) (w_fs w) f np = Some true /\ dest_parent_test (c_var c) (w_fs w) f np = Some true /\
+   parents_contained (w_fs w) f np = Some true /\ source_contained (w_fs w) f = Some true) \/
   (exists e, first_pass c ((f, r) :: rest) w cwd bl = (w, cwd1, bl, Some e)).
 Proof.
   intros H1 H2 H3. cbn [first_pass]. rewrite H1, H2, H3.
   destruct (contained (c_var c) (w_fs w) f np) as [[|]|].
-  - destruct (parents_contained (w_fs w) f np) as [[|]|].
-    + destruct (source_contained (w_fs w) f) as [[|]|].
-      * left. repeat split; reflexivity.
+  - destruct (dest_parent_test (c_var c) (w_fs w) f np) as [[|]|].
+    + destruct (parents_contained (w_fs w) f np) as [[|]|].
+      * destruct (source_contained (w_fs w) f) as [[|]|].
+        -- left. repeat split; reflexivity.
+        -- right. eexists. reflexivity.
+        -- right. eexists. reflexivity.
       * right. eexists. reflexivity.
       * right. eexists. reflexivity.
     + right. eexists. reflexivity.
